@@ -315,7 +315,7 @@ def gen_history(rng, idx, modes):
             # flags that change the path through ExternalCommand::execute / isResultValid / the deps handling
             c["allow_modified"] = rng.random() < 0.25
             c["aood"] = rng.random() < 0.1
-            c["deps"] = rng.random() < 0.12
+            c["deps"] = rng.choice([1, 2, 2, 3, 3]) if rng.random() < 0.15 else 0      # number of dependency files
             c["allow_missing"] = rng.random() < 0.12
             for j in range(rng.choice([1, 1, 2])):
                 kind = rng.choice(["plain", "plain", "plain", "virtual", "timestamp", "directory", "structure", "blocked"])
@@ -368,7 +368,7 @@ def gen_history(rng, idx, modes):
         fs = {}
         for c in rng.sample(cands, min(n, len(cands))):
             k = rng.choice(kinds(c))
-            fs[c["name"]] = (k, rng.choice([1, 2, 7, 127, 255]) if k == "exit" else 0)
+            fs[c["name"]] = (k, rng.choice([1, 2, 7, 127, 255]) if k == "exit" else rng.randrange(2 * int(c.get("deps") or 1)) if k == "bad-deps" else 0)
         return fs
     F = pick(rng.choice([1, 1, 2, 3]))
     pattern = rng.choice("AABCD")
@@ -403,8 +403,8 @@ def script_of(c, structs, links=()):
             s += "echo \"$h\" > %s || exit 1; " % o
         elif k in (3, 4):
             s += "mkdir -p %s && echo \"$h\" > %sf || exit 1; " % (o, o)
-    if c.get("deps"):
-        s += "echo 'o: src0.txt' > dep_%s.d; " % name
+    for i in range(int(c.get("deps") or 0)):
+        s += "echo 'o: src0.txt' > dep_%s_%d.d; " % (name, i)
     # a failure AFTER every output was written
     s += "if [ -f failafter.%s ]; then . ./failafter.%s; fi; " % (name, name)
     return s + "true"
@@ -430,7 +430,9 @@ def description(h):
         if c.get("allow_modified"): L.append('    allow-modified-outputs: "true"')
         if c.get("aood"): L.append('    always-out-of-date: "true"')
         if c.get("allow_missing"): L.append('    allow-missing-inputs: "true"')
-        if c.get("deps"): L += ["    deps: dep_%s.d" % c["name"], "    deps-style: makefile"]
+        nd = int(c.get("deps") or 0)
+        if nd == 1: L += ["    deps: dep_%s_0.d" % c["name"], "    deps-style: makefile"]
+        elif nd > 1: L += ["    deps: [%s]" % ", ".join(yq("dep_%s_%d.d" % (c["name"], i)) for i in range(nd)), "    deps-style: makefile"]
         if c["tool"] == "symlink": L.append("    contents: %s" % yq(c["contents"]))
     return "\n".join(L) + "\n"
 
@@ -487,7 +489,10 @@ def apply_state(S, h, b, first):
         fa = os.path.join(S, "failafter." + name)
         if os.path.exists(fa): os.unlink(fa)
         if kind[0] == "after-exit": open(fa, "w").write("exit 9\n")
-        elif kind[0] == "bad-deps": open(fa, "w").write("rm -f dep_%s.d\n" % name)
+        elif kind[0] == "bad-deps":
+            # argument = 2 * position + (1: malformed content, 0: file removed); every other dependency file stays good
+            pos, garbage = (kind[1] // 2) % max(1, int(c.get("deps") or 1)), kind[1] % 2
+            open(fa, "w").write(("echo 'no colon here' > dep_%s_%d.d\n" if garbage else "rm -f dep_%s_%d.d\n") % (name, pos))
         if kind[0] == "exit": open(ff, "w").write("exit %d\n" % kind[1])
         elif kind[0] == "segv": open(ff, "w").write("kill -SEGV $$\n")
         elif kind[0] == "undeclared":
@@ -827,8 +832,23 @@ def directed_restart_histories():
                     hs.append(h); i += 1
     return hs
 
+def directed_deps_histories():
+    """Always in the quick tier: a command with 1-3 dependency files of which exactly ONE is bad (removed / malformed),
+    in every position; it wrote all its outputs, must be recorded as failed, must not feed c1, must be retried."""
+    hs = []
+    modes = ["drv-0-keepgoing", "cli-serial", "drv-4-keepgoing", "drv-0-cancel", "cli-j4"]
+    i = 0
+    for nd in (1, 2, 3):
+        for pos in range(nd):
+            for garbage in (0, 1):
+                cmds = [S_("c0", ["src0.txt"], ["o_c0_0.out"], deps=nd), S_("c1", ["o_c0_0.out"], ["o_c1_0.out"]), S_("c2", ["src0.txt"], ["o_c2_0.out"])]
+                for mode in (modes[i % len(modes)], "drv-0-keepgoing" if i % len(modes) else "cli-serial"):
+                    hs.append(corpus_history(9500 + len(hs), cmds, {"c0": ("bad-deps", 2 * pos + garbage)}, mode, "deps-%d-%d-%s" % (nd, pos, "malformed" if garbage else "missing")))
+                i += 1
+    return hs
+
 def corpus_histories():
-    hs = directed_restart_histories()
+    hs = directed_restart_histories() + directed_deps_histories()
     for mi, mode in enumerate(["drv-0-keepgoing", "drv-4-keepgoing", "cli-serial", "drv-0-cancel"]):
         hs.append(corpus_history(9300 + mi, FAIL_AFTER_OUTPUT, {"c0": ("after-exit", 0), "c2": ("bad-deps", 0)}, mode, "fail-after-output"))
         hs.append(corpus_history(9310 + mi, FAIL_AFTER_OUTPUT, {"c2": ("after-exit", 0)}, mode, "fail-after-output"))
